@@ -20,26 +20,31 @@ def alloc_func(ctx):
     holders = [g for g in sim_reach(ctx) if appends(g)]
     if not holders:
         raise AnalysisError("anchor: no simulation-reachable function appends to allocated_worker_list")
-    # climb from each holder to the outermost same-class private function that reaches it only through private helpers
-    def callers_of(g):
-        out = []
-        for h in sim_reach(ctx):
+    # the phase is the function the step loop itself calls: the outermost private function of the holder's class whose private
+    # call closure contains a holder
+    def closure(g):
+        out, todo = [], [g]
+        while todo:
+            h = todo.pop()
+            if any(h.node is x.node for x in out):
+                continue
+            out.append(h)
             for cs in ctx.eff.calls_of(h):
-                if cs.resolved and any(c.node is g.node for c in cs.callees):
-                    out.append(h)
+                for c in cs.callees:
+                    if cs.resolved and c.cls == g.cls and c.name.startswith("_") and not c.name.endswith("__"):
+                        todo.append(c)
         return out
+    sf, loop = sim_loop(ctx)
+    direct = []
+    for cs in ctx.eff.calls_of(sf):
+        if cs.resolved and any(cs.node is n for b0 in loop.body for n in ast.walk(b0)):
+            direct.extend(cs.callees)
     tops = []
-    for g in holders:
-        cur, seen = g, set()
-        while True:
-            seen.add(id(cur.node))
-            ups = [h for h in callers_of(cur) if h.cls == cur.cls and h.name.startswith("_") and not h.name.endswith("__") and id(h.node) not in seen
-                   and h.name not in ("simulate",)]
-            if len(ups) != 1:
-                break
-            cur = ups[0]
-        if not any(cur.node is t.node for t in tops):
-            tops.append(cur)
+    for g in direct:
+        if any(any(h.node is x.node for x in closure(g)) for h in holders) and not any(g.node is t.node for t in tops):
+            tops.append(g)
+    if not tops:
+        tops = holders
     if len(tops) != 1:
         raise AnalysisError(f"anchor: expected exactly one allocation phase (function appending to allocated_worker_list), found {[g.qualname for g in tops]}")
     _CACHE[key] = tops[0]
@@ -172,6 +177,7 @@ def _roles(f, s):
     s.task_loop, s.facility_loop, s.worker_loop = loop_of(s.task), loop_of(s.facility), loop_of(s.worker)
     s.pick = None
     s.worker_name = s.cand_name = None
+    s.cand_coll = s.worker_loop.coll if s.worker_loop is not None else None
     ew = s.ev.get("task<-worker")
     call = ew.node if ew is not None else None
     if isinstance(call, ast.Expr):
@@ -182,13 +188,12 @@ def _roles(f, s):
         if isinstance(s.worker_loop.node.target, ast.Name):
             s.worker_name = s.worker_loop.node.target.id
         s.cand_name = s.worker_loop.node.iter.id if isinstance(s.worker_loop.node.iter, ast.Name) else None
-    elif s.worker_name is not None and call is not None:
-        assigns = [a for a in ast.walk(f.node) if isinstance(a, ast.Assign) and len(a.targets) == 1 and isinstance(a.targets[0], ast.Name)
-                   and a.targets[0].id == s.worker_name and a.lineno <= call.lineno]
-        if assigns:
-            a = max(assigns, key=lambda a: a.lineno)
-            v = a.value
-            if isinstance(v, ast.Subscript) and isinstance(v.value, ast.Name) and not isinstance(v.slice, ast.Slice):
-                idx = v.slice.value if isinstance(v.slice, ast.Constant) else None
-                s.pick = {"node": a, "index": idx, "text": ast.unparse(v)}
-                s.cand_name = v.value.id
+    elif s.worker is not None:
+        # picked by position: the interpreter logged where the element came from
+        from .interp import Pick
+        for e in list(s.before) + list(s.trace):
+            if isinstance(e, Pick) and e.result == s.worker:
+                sub = e.node
+                s.pick = {"node": sub, "index": e.index, "text": ast.unparse(sub), "func": e.func, "coll": e.coll}
+                s.cand_coll = e.coll
+                s.cand_name = sub.value.id if isinstance(sub, ast.Subscript) and isinstance(sub.value, ast.Name) else None
